@@ -306,8 +306,12 @@ func (s *Session) Mail(from string, opts *smtp.MailOptions) error {
 		}
 	}
 
-	// Keep the MAIL FROM argument for deferred startDelivery.
-	s.mailFrom = from
+	if s.endp.deferServerReject {
+		// Keep the MAIL FROM argument for deferred startDelivery.
+		// Otherwise startDelivery has stored the normalized address
+		// releaseLimits has to use.
+		s.mailFrom = from
+	}
 	s.opts = *opts
 
 	return nil
